@@ -153,7 +153,9 @@ func c09Run(e *Env) {
 	}
 	// the socket is the library's to close (Dial, WithCloseSocket), or it belongs to the application (udp.Client(conn),
 	// tcp.Client(conn), dtls.Client(conn) as they come): Close then leaves it open - and still has to complete
-	ownSocket := t.Chance(1, 4) && peer != pStallHandshake && peer != pStallStream // (a write blocked on a stalled stream is the known finding C09.R1; on a socket that Close leaves open not even Close frees it)
+	// (also against the peers that stall a stream or a handshake: Close leaves the socket open there, so the blocked
+	// write / the handshake a request is running has to be ended by the connection's context)
+	ownSocket := t.Chance(1, 4)
 	if ownSocket {
 		e.Probe("socket.ownedByTheApplication")
 	}
